@@ -116,6 +116,11 @@ class Gen:
             s = self.element((STY, 'style'), 1, {(STY, 'name'): nm, (STY, 'family'): fam})
             if s is not None:
                 doc.automaticstyles.addElement(s); self.autonames.append(nm)
+        if rng.random() < 0.3:
+            # an automatic style nothing refers to, which itself refers to another automatic style
+            from odf import text as T
+            doc.automaticstyles.addElement(T.ListStyle(name='L9'))
+            doc.automaticstyles.addElement(style.Style(name='A9', family='paragraph', liststylename='L9'))
         body_top = doc.body.firstChild
         self.fill_section(body_top, 3, rng.randint(1, 4))
         self.fill_section(doc.styles, 2, rng.randint(0, 3))
